@@ -985,8 +985,8 @@ func Gen(o Opts) *rapid.Generator[*Case] {
 			n = rapid.IntRange(o.MinGlyphs, o.MaxGlyphs).Draw(t, "nGlyphs")
 		default:
 			n = rapid.OneOf(
-				rapid.IntRange(o.MinGlyphs, min(o.MaxGlyphs, 8)),
-				rapid.IntRange(o.MinGlyphs, min(o.MaxGlyphs, 40)),
+				rapid.IntRange(o.MinGlyphs, max(o.MinGlyphs, min(o.MaxGlyphs, 8))),
+				rapid.IntRange(o.MinGlyphs, max(o.MinGlyphs, min(o.MaxGlyphs, 40))),
 				rapid.IntRange(o.MinGlyphs, o.MaxGlyphs),
 			).Draw(t, "nGlyphs")
 			if o.MaxGlyphs >= 259 && rapid.IntRange(0, 9).Draw(t, "n258") == 0 {
